@@ -120,7 +120,9 @@ func (se *SessionExecutor) doMultiStmts(reqCtx *util.RequestContext, sql string)
 
 	stmtsNum := len(piecesSql)
 	if stmtsNum == 1 { //single statements
-		return se.doQuery(reqCtx, sql)
+		// execute the piece, not the original text: the text may carry empty statements
+		// (";select 1") that the backend would reject
+		return se.doQuery(reqCtx, piecesSql[0])
 	}
 
 	//multi-query
